@@ -1,6 +1,7 @@
 // C20 - solvers are re-entrant: concurrent independent runs are race-free (ThreadSanitizer) and bit-identical to sequential runs.
 // One case = one launch of 2..16 threads, each running a random permutation of the task list. One solver group per build.
 #define VF_MAIN
+#define VF_HAVE_SETUP
 #include "common/fachook.hpp"
 #include "common/framework.hpp"
 #include "common/zoo.hpp"
@@ -126,6 +127,8 @@ static std::vector<Task> build_tasks(vf::Ctx& ctx)
     return tasks;
 }
 
+void vf_setup(vf::Ctx&) { vz::run_prelude<T>(); }
+
 long vf_ncases(const vf::Ctx& ctx) { return ctx.thorough ? 340 : 12; }
 
 void vf_run_case(vf::Ctx& ctx, long idx)
@@ -137,6 +140,19 @@ void vf_run_case(vf::Ctx& ctx, long idx)
     {
         try { t.seq = t.run(nullptr); }
         catch (const std::exception& e) { t.seq = Snapshot(); t.seq.ret = -99; }
+    }
+    // digest of the sequential results: must not depend on what ran earlier in this process (runner: this case alone vs. inside the worker's sequence,
+    // which starts with a prelude of much larger problems)
+    {
+        uint64_t h = 1469598103934665603ULL;
+        for (auto& t : tasks)
+        {
+            const long meta[4] = {t.seq.ret, t.seq.niter, t.seq.nops, (long) t.seq.info};
+            h = vf::Ctx::fnv_bytes(meta, sizeof meta, h);
+            h = vf::Ctx::fnv_bytes(t.seq.evals.data(), t.seq.evals.size(), h);
+            h = vf::Ctx::fnv_bytes(t.seq.evecs.data(), t.seq.evecs.size(), h);
+        }
+        ctx.digest(h);
     }
     const int nthreads = (int) r.range(2, 16);
     const int ntask = (int) tasks.size();
